@@ -91,6 +91,7 @@ type W struct {
 	nondets         []NondetRec
 	asserts         []AssertRec
 	reaches         []string
+	obsTerms        []*smt.Term // parallel to reaches; non-nil for vpObserve entries
 	observes        []string
 	steps           int
 	depth           int
